@@ -57,7 +57,7 @@ def gen_mo_cases(tier, seed):
     rnd = random.Random(seed * 7919 + 19)
     cases = []
     Ls = [0, 1, 7, 64, -1]
-    reps = 3 if tier == "quick" else 12
+    reps = 6 if tier == "quick" else 150
     for rep in range(reps):
         for (nodes, ppn) in LAYOUTS:
             for L in Ls:
@@ -69,6 +69,7 @@ def gen_mo_cases(tier, seed):
                     cases.append({"kind": "mo", "nodes": nodes, "ppn": ppn, "L": L, "append": append,
                                   "nsub": rnd.choice([1, 2, 5, 9]), "nwrites": rnd.choice([0, 1, 6, 25]) if rnd.random() < 0.3 else rnd.choice([8, 20, 40]),
                                   "maxlen": rnd.choice([3, 30, 200]), "flags": flags, "seed": rnd.randrange(1, 10 ** 9),
+                                  "routing": rnd.choice(["NONE", "NR", "NLNR"]),
                                   "sim_seed": rnd.randrange(1, 10 ** 6)})
     # directed: big lines against the default 1 MiB buffer (crosses the real threshold)
     cases.append({"kind": "mo", "nodes": 1, "ppn": 2, "L": -1, "append": 0, "nsub": 2, "nwrites": 6, "maxlen": 400000, "flags": 1,
@@ -88,7 +89,7 @@ def run_case(binary, case):
         args = ["day", case["seed"], case["L"], case["nwrites"], ",".join(map(str, case["ts"]))]
     # a local time zone far from UTC: localtime instead of gmtime would show
     return C.run_sim(binary, args, nodes=case["nodes"], ppn=case["ppn"], sim_seed=case.get("sim_seed", 1), want_log=False, timeout=120,
-                     env={"TZ": "XYZ+11:30"})
+                     env={"TZ": "XYZ+11:30", "YGM_COMM_ROUTING": case.get("routing", "NONE")})
 
 
 def parse_mo(sr, ranks):
@@ -252,7 +253,7 @@ def check_mo(res, case, sr, model_ok):
     for f in feats:
         res.count(f)
     if feats & {"multi-origin", "old+append", "old+trunc"}:
-        res.distinct.add((case["nodes"], case["ppn"], cls, append, case["flags"], tuple(sorted(feats))))
+        res.distinct.add((case["nodes"], case["ppn"], case.get("routing"), cls, append, case["flags"], tuple(sorted(feats))))
     if ranks == 4 and len(gens) and "multi-origin" in feats:
         g0 = gens[0]
         s0 = next(iter(sorted(g0["files"])), None)
@@ -271,9 +272,9 @@ def boundary_timestamps(rnd, tier):
     for d in days:
         ts += [d * D, d * D + D - 1]
     ts += [2 ** 31 - 1, 2 ** 31, 2 ** 32 - 1, 2 ** 32, 951782399, 951782400, 951868799, 951868800]
-    for _ in range(40 if tier == "quick" else 400):
+    for _ in range(150 if tier == "quick" else 3000):
         ts.append(rnd.randrange(0, 253402300800))      # up to 9999-12-31
-    for _ in range(20 if tier == "quick" else 200):     # month ends of random years
+    for _ in range(60 if tier == "quick" else 1500):    # month ends of random years
         y = rnd.randrange(1970, 2400)
         m = rnd.randrange(1, 13)
         first = int((datetime.datetime(y, m, 1) - datetime.datetime(1970, 1, 1)).total_seconds())
@@ -388,7 +389,7 @@ def replay(data):
     if binary is None:
         print(err[-500:])
         return False
-    keep = {k: case[k] for k in ("kind", "nodes", "ppn", "L", "append", "nsub", "nwrites", "maxlen", "flags", "seed", "sim_seed", "ts") if k in case}
+    keep = {k: case[k] for k in ("kind", "nodes", "ppn", "L", "append", "nsub", "nwrites", "maxlen", "flags", "seed", "sim_seed", "ts", "routing") if k in case}
     sr = run_case(binary, keep)
     res = C.Result()
     (check_mo if keep["kind"] == "mo" else check_day)(res, keep, sr, True)
